@@ -119,7 +119,7 @@ class TreeGen:
                 if base.is_group and in_occurs:
                     self.features.add("nested-occurs")
             elif (o["odo"] and snapshot and rng.random() < 0.5 and not in_occurs):
-                lo, hi = rng.choice([(0, 3), (1, 4), (0, 5), (2, 2), (1, 9)])
+                lo, hi = rng.choice([(0, 3), (1, 4), (0, 5), (2, 2), (1, 9), (10, 12)])
                 base.odo = (lo, hi, rng.choice(snapshot))
                 occ_here = True
                 self.features.add("odo-group" if base.is_group else "odo-elem")
@@ -132,7 +132,7 @@ class TreeGen:
                     and rng.random() < 0.6:
                 # make it usable as a counter: small unsigned zoned or binary number
                 if rng.random() < 0.7:
-                    base.pic, base.usage, base.width = rng.choice([("9", None, 1), ("99", None, 2), ("9(2)", None, 2)])
+                    base.pic, base.usage, base.width = rng.choice([("9(3)", None, 3), ("99", None, 2), ("9(2)", None, 2)])
                 else:
                     base.pic, base.usage, base.width = "9(4)", "COMP", 2
                 self.counters_available.append(base.name)  # type: ignore[arg-type]
@@ -326,7 +326,10 @@ def clause_text(n: Node, st: Style) -> str:
     if n.occurs is not None:
         parts.append(f"OCCURS {n.occurs} TIMES")
     if n.odo is not None:
-        parts.append(f"OCCURS {n.odo[0]} TO {n.odo[1]} TIMES DEPENDING ON {n.odo[2]}")
+        # (the optional words TIMES and ON are left out for some items; which, depends on the item only)
+        times = "" if (n.level + len(n.odo[2])) % 4 == 0 else " TIMES"
+        on = "" if (n.level + len(n.odo[2])) % 3 == 0 else " ON"
+        parts.append(f"OCCURS {n.odo[0]} TO {n.odo[1]}{times} DEPENDING{on} {n.odo[2]}")
     parts += n.extra
     return " ".join(parts) + "."
 
